@@ -952,9 +952,9 @@ Section HeapProofs.
     intros [es0 len0 size0] (Hl & Hinv) es len size pos. cbn [entries hlen hsize] in *.
     unfold insert_prep. cbn [entries hlen hsize].
     destruct Hinv as [(H0 & H1)|(H1 & H2 & H3 & H4 & H5)].
-    - subst len0 size0. change (0 <? 1 + 1) with true. change (0 =? 0) with true. cbv iota.
-      destruct (cset _ 0 sentinel); cbn [obind]; [|discriminate].
-      intros E; inversion E; subst. split; [reflexivity|]. intros i Hi; lia.
+    - subst len0. rewrite H1 in *. change (0 <? 1 + 1) with true. change (0 =? 0) with true. cbv beta iota zeta.
+      destruct (cset _ 0 sentinel); cbn [obind]; intros E; [|discriminate E].
+      inversion E; subst. split; [reflexivity|]. intros i Hi; lia.
     - destruct (Nat.eqb_spec len0 0) as [E0|E0]; [lia|].
       destruct (size0 <? S len0 + 1) eqn:Eg.
       + destruct (Nat.eqb_spec size0 0) as [E1|E1]; [lia|].
